@@ -242,6 +242,7 @@ class Explorer:
         self.raw_fail = []      # (kind, stmts, state, detail)
         self.max_shrinks = max_shrinks
         self.extra_subs = {}
+        self.features = None     # when set: shrink steps must stay inside the generator's normal form
 
     def compile(self, stmts):
         text = show.program(stmts)
@@ -278,6 +279,15 @@ class Explorer:
             self.raw_fail.append((r[0], stmts, stt, r[1]))
         return judged
 
+    def in_normal_form(self, stmts):
+        if self.features is None:
+            return True
+        from . import gen
+        try:
+            return gen.normalize(stmts, self.features, self.all_subs(), {}) == stmts
+        except Exception:
+            return False
+
     def fails_with(self, kind, stmts, state):
         comp, text, il = self.compile(stmts)
         if comp is None or isinstance(comp, tuple):
@@ -294,7 +304,7 @@ class Explorer:
             fl.sort(key=lambda f: len(show.program(f[1])))
             seen = set()
             for kind, stmts, state, detail in fl[: self.max_shrinks]:
-                small = shrink_program(stmts, lambda s: self.fails_with(kind, s, state))
+                small = shrink_program(stmts, lambda s: self.in_normal_form(s) and self.fails_with(kind, s, state))
                 sstate = shrink_state(state, lambda s: self.fails_with(kind, small, s))
                 feats = feature_signature(small)
                 sig = f"{self.pid} {kind} [{feats}]"
@@ -357,6 +367,7 @@ def gen_worker(pid, features, nprog, nstates, seed, depth=3, nest=2, lo=1, hi=6,
     p = run.Part()
     ex = Explorer(p, pid, fmt)
     features = frozenset(features)
+    ex.features = features
 
     @hypothesis.seed(seed)
     @settings(max_examples=nprog, database=None, deadline=None, derandomize=False, phases=[Phase.generate],
